@@ -110,7 +110,7 @@ def cases(draw):
             msp = ""
         a1 = "%s=%s%s%s" % (he, mq, ct, mq)
         a2 = "content=%s%s;%scharset=%s%s" % (mq, mtype, msp, cs, mq)
-        if draw(st.integers(0, 7)) == 0:
+        if draw(st.integers(0, 2)) == 0:
             meta_order = "content-first"
             a1, a2 = a2, a1
         meta = "<meta %s %s%s" % (a1, a2, close)
@@ -294,11 +294,6 @@ class Bytes(Part):
                 info, got=ce))
         return None
 
-    def known(self, case, mismatch):
-        if case["meta_order"] == "content-first" and case["meta"] and \
-                case["announce"] == "meta":
-            return "K8"
-        return None
 
 
 CHECK = Check(
